@@ -69,6 +69,8 @@ def analyze(scenario, log):
     now_final = None
     events_final = None
     waitp_calls = []                   # (waiter, target, t0, ret or None)
+    res_waits = []                     # [pid, r, t0, call_idx, ret_idx or None, ret_time or None, ret_val, immediate]
+    prio_changed = set()
     end_times = collections.defaultdict(list)
     prev_call = [None]                 # pid whose call line was the previous log line (an immediate return follows directly)
     varh = {}                          # (pid or -1 for shared, var) -> handle string
@@ -79,6 +81,9 @@ def analyze(scenario, log):
             return
         ended[q] = (t, how)
         end_times[q].append(t)
+        for rw in res_waits:
+            if rw[0] == q and rw[4] is None:
+                rw[4], rw[5], rw[6] = 10 ** 9, t, -99
         for r in range(len(holder)):
             if holder[r] == q:
                 holder[r] = None
@@ -120,6 +125,8 @@ def analyze(scenario, log):
             open_call[pid] = (pc, t, cmd)
             if cmd[0] == "waitp":
                 waitp_calls.append([pid, int(cmd[1]), t, None])
+            if cmd[0] in ("acq", "pre") and int(cmd[1]) < len(holder):
+                res_waits.append([pid, int(cmd[1]), t, li, None, None, None, False])
             if cmd[0] == "ppre" and int(cmd[1]) < len(ppre_times):
                 ppre_times[int(cmd[1])].add(t)
             if cmd[0] == "stop" and int(cmd[1]) != pid and 0 <= int(cmd[1]) < np_:
@@ -128,6 +135,7 @@ def analyze(scenario, log):
             continue
         if k == "s":
             open_call.pop(int(w[1]), None)
+            res_waits[:] = [rw for rw in res_waits if not (rw[0] == int(w[1]) and rw[4] is None)]
             continue
         if k == "e":
             pid, t = int(w[1]), int(w[2])
@@ -156,6 +164,12 @@ def analyze(scenario, log):
             t0, cmd = oc[1], oc[2]
             op = cmd[0]
             a = [int(x) for x in cmd[1:]]
+            if op in ("acq", "pre"):
+                for rw in res_waits:
+                    if rw[0] == pid and rw[4] is None and rw[2] == t0 and rw[1] == a[0]:
+                        rw[4], rw[5], rw[6], rw[7] = li, t, val, immediate
+            if op == "prio":
+                prio_changed.add(a[0])
             # ---------------- C04 ----------------
             if op == "hold" and val == 0 and t != t0 + a[0]:
                 bad("C04", "hold %d issued by process %d at t=%d returned SUCCESS at t=%d (expected t=%d)" % (a[0], pid, t0, t, t0 + a[0]))
@@ -435,6 +449,20 @@ def analyze(scenario, log):
         for q, d in dump.get("K", {}).items():
             if q < len(pq_entries) and not pq_unknown[q] and int(d["len"]) != len(pq_entries[q]):
                 bad("C12", "priority queue %d: length %s but %d objects are undelivered" % (q, d["len"], len(pq_entries[q])))
+    # ---------------- C06: no overtaking on a resource's waiting list (static priorities only) ----------------
+    for g in res_waits:
+        pid, r, t0, ci, ri, rt, val, imm = g
+        if ri is None or val != 0 or imm or pid in prio_changed:
+            continue
+        for q in res_waits:
+            qp, qr, qt0, qci, qri, qrt, qval, qimm = q
+            if qp == pid or qr != r or qp in prio_changed or qimm:
+                continue
+            waiting_before = qt0 < rt and qci < ri
+            still_waiting_after = qri is None or (qrt is not None and qrt > rt)
+            if waiting_before and still_waiting_after and prio[qp] > prio[pid]:
+                bad("C06", "resource %d was granted to process %d (priority %d) at t=%d while process %d (priority %d) had been waiting "
+                    "since t=%d and kept waiting" % (r, pid, prio[pid], rt, qp, prio[qp], qt0))
     # ---------------- C14 histories ----------------
     for (kind, idx), h in hist.items():
         ts = [t for (_, t) in h]
